@@ -280,3 +280,27 @@ func RunReplays(fns map[string]func()) {
 		fmt.Printf("REPLAY %s outcome=%s label=%q case=%q msg=%q\n", p, res.Outcome, res.Label, res.Case, res.Msg)
 	}
 }
+
+// Non-forking boolean combinators: under the engine they build one solver
+// term instead of branching (Go's && and || compile to branches).
+func Or(c ...bool) bool {
+	for _, x := range c {
+		if x {
+			return true
+		}
+	}
+	return false
+}
+
+func And(c ...bool) bool {
+	for _, x := range c {
+		if !x {
+			return false
+		}
+	}
+	return true
+}
+
+func Not(c bool) bool        { return !c }
+func Implies(a, b bool) bool { return !a || b }
+func Iff(a, b bool) bool     { return a == b }
